@@ -161,3 +161,21 @@ PROPS["C05"] = {
     "assumptions": ["DH commutes / the ladder computes scalar multiplication on curve and twist: Montgomery group law, not formalised (no elliptic-curve library installed)"],
     "partial": "wrapper logic, clamping, kx layout/mirror/zero refusal proved; curve arithmetic differential against an executable Coq spec and libsodium",
 }
+
+PROPS["C10"] = {
+    "theorems": [
+        {"name": "C10_base64_roundtrip", "status": "proved", "statement": "decode (encode bs) = Some bs for every byte string (no-pad standard alphabet, strict decoder)"},
+        {"name": "C10_decimal_roundtrip", "status": "proved", "statement": "parse_u32 (print_u32 n) = Some n for every n < 2^32"},
+        {"name": "C10_parse_encode", "status": "proved", "statement": "parse (to_string alg t m salt hash) returns exactly (alg, t, m, salt, hash, p=1, v=19): both algorithms, any non-empty salt/hash, t, m < 2^32"},
+        {"name": "C10_reencode", "status": "proved", "statement": "from_string then to_string of an encoder-produced string returns the same string"},
+        {"name": "C10_needs_rehash", "status": "proved", "statement": "needs_rehash = not (opslimit as u32 = t and (memlimit/1024) as u32 = m)"},
+        {"name": "C10_field_like_salt", "status": "proved", "statement": "non-vacuity + the finding: a salt whose base64 text begins 'argon2id' parses correctly (by vm_compute)"},
+    ],
+    "builds": ["stable"],
+    "rule": "parser / encoder correspondence (from_string fields via serde, to_string, needs_rehash) on grammar-built strings: valid (both algorithms, salt 8..32, hash 16..64 bytes) and 40 one-defect variants (dropped / duplicated / reordered fields, numeric overflow, '+', leading zeros, bad base64, padding, p!=1, v!=19, unknown algorithm, field-like salts), fragments, PRNG soup; "
+            "dryoc strings verified by libsodium (right / wrong password) and libsodium strings of both algorithms verified, parsed and re-encoded by dryoc; needs_rehash against libsodium on matching / differing costs; object API with salt 8..64 and hash 16..128 bytes (search). non-trivial = string longer than 40 bytes or valid",
+    "modelled": ["base64 0.21 GeneralPurpose(STANDARD, NO_PAD) and u32::from_str, str::split/starts_with/strip_prefix/contains are modelled from their documentation (Impl/PwhashStr.v) and tied by correspondence incl. malformed inputs",
+                 "Argon2 itself is C09; str / str_verify are exercised against libsodium only"],
+    "assumptions": ["libsodium as the reference verifier"],
+    "partial": "string layer proved; 'encodes the hash actually used' relies on C09 for the hash value",
+}
